@@ -96,15 +96,20 @@ def gen_history(rng, tag, shipped):
             tgt = {"length": "foot", "time": "minute", "mass": "pound"}.get(d)
             if tgt and len(src) == 1:
                 return ["convert", synth.small_mag(rng), sysm.term(src), ["u", tgt] if src[0][1] == 1 else ["pow", ["u", tgt], src[0][1]]]
-        kind = rng.choice(["convert", "convert", "convert", "eq", "lt"])
+        kind = rng.choice(["convert", "convert", "convert", "eq", "lt", "level"])
         if kind == "convert":
             return ["convert", synth.small_mag(rng), sysm.term(src), sysm.term(dst)]
+        if kind == "level":
+            # how many decibels above 1 <dst> is this much <src>: a conversion like any other, with a logarithm after it
+            return ["level", ["i", 1], sysm.term(dst), ["i", rng.choice([1, 2, 5, 10, 40])], sysm.term(src)]
         return [kind, synth.small_mag(rng), sysm.term(src), synth.small_mag(rng), sysm.term(dst)]
 
     def reverse(q):
         """the same question asked the other way round (b -> a, b == a, b < a)"""
         if q[0] == "convert":
             return ["convert", q[1], q[3], q[2]]
+        if q[0] == "level":
+            return ["level", q[1], q[4], q[3], q[2]]
         return [q[0], q[3], q[4], q[1], q[2]]
 
     finals = [rand_query() for _ in range(rng.randint(6, 12))]
@@ -365,7 +370,9 @@ class Num:
 def build_only_run(spec1, final_start):
     ops = []
     for idx, op in enumerate(spec1["ops"]):
-        if idx < final_start and op[0] in ("convert", "eq", "lt"):
+        if idx < final_start and op[0] == "little_stack":
+            op = op[2]
+        if idx < final_start and op[0] in ("convert", "eq", "lt", "level"):
             terms = [op[2], op[3]] if op[0] == "convert" else [op[2], op[4]]
             ops.append(["build", terms])
         else:
@@ -449,7 +456,7 @@ def run(ctx):
         for idx, op in enumerate(spec1["ops"][:final_start]):
             if op[0] in ("declare", "scale"):
                 last_decl_index = idx
-            elif op[0] in ("convert", "eq", "lt"):
+            elif op[0] in ("convert", "eq", "lt", "level"):
                 earlier.setdefault(repr(op), []).append((idx, outcome(r1[idx])))
         case_base = {"seed": ctx.seed, "history": i, "defs": ndefs, "declarations": ndecls}
         for idx, op in enumerate(spec1["ops"][:final_start]):
